@@ -349,7 +349,7 @@ func (x *Exec) makeSliceFork(st *State, fr *Frame, t *ssa.MakeSlice) []Result {
 	nonneg := tf.BVCmp(OSLe, tf.BV(0, 64), l64)
 	x.addObl(st, "panic", "makeslice: len out of range (negative)", x.pos(t), nonneg)
 	limit := x.cfg.AllocLimit
-	within := tf.And(nonneg, tf.BVCmp(OSLe, l64, tf.BV(uint64(limit), 64)))
+	within := tf.Implies(nonneg, tf.BVCmp(OSLe, l64, tf.BV(uint64(limit), 64)))
 	x.addObl(st, "alloc", fmt.Sprintf("allocation of more than %d elements", limit), x.pos(t), within)
 	et := t.Type().Underlying().(*types.Slice).Elem()
 	var out []Result
